@@ -1001,6 +1001,28 @@ def symlist_method(it, lst, name, args, kwargs, pc):
             return vc.mk_union(outs, sweep=False)
     if name == "count":
         pass
+    if name == "pop" and not lst.is_tuple and not kwargs and len(args) <= 1:
+        idx = args[0] if args else -1
+        if isinstance(idx, int) and not isinstance(idx, bool) and idx in (0, -1):
+            # first (last) PRESENT element; it leaves the list under the live path condition
+            live = it.live(fr, pc)
+            order = lst.elems if idx == 0 else list(reversed(lst.elems))
+            rest = vc.CT
+            firsts = []
+            for e in order:
+                firsts.append((vc.c_and(rest, e[0]), e))
+                rest = vc.c_and(rest, vc.c_not(e[0]))
+            bad = vc.c_and(live, rest)
+            if not vc.c_is_false(bad):
+                it.raise_exc(bad, IndexError("pop from empty list"))
+            res = UNBOUND
+            for f, e in reversed(firsts):
+                if vc.c_is_false(f):
+                    continue
+                res = e[1] if res is UNBOUND else vc.select(f, e[1], res)
+            for f, e in firsts:
+                e[0] = vc.c_and(e[0], vc.c_not(vc.c_and(live, f)))
+            return res
     if name == "__len__":
         return symlist_len(it, lst)
     raise Unsupported("list.%s on symbolic list" % name)
